@@ -62,7 +62,8 @@ def enum_remap(prog, g, adt):
                     rv = st["rv"]
                     if rv["k"] == "agg" and rv.get("adt") == adt:
                         outs.add(rv["variant"])
-                    elif rv["k"] == "use" and "c" not in rv["op"] and op_place(rv["op"]) == {"l": 1}:
+                    elif rv["k"] == "use" and "c" not in rv["op"] and all(
+                            o.kind == "arg" and o.arg == 1 and not o.proj for o in flow.origins(g, rv["op"])):
                         outs.add("=")
                     else:
                         outs.add("?")
